@@ -64,6 +64,10 @@ for s in sites:
         e=D("C01_split_string_never_panics","Model.Pipeline.split_string mirrors the loop (fix c447a1c) with split_at and the usize decrement as Panic sites; for every valid UTF-8 string neither fires and the fuel suffices")
     elif f.endswith("control_flow_graph/cfg.rs") and fn=="start_after":
         e=G("default budget","verification hook in `#[cfg(circomspect_verif)] mod verif_budget`: not part of the shipped binary (the checks build with that cfg). The `expect` is evaluated only when `exhausted(..)` holds, i.e. after a harness lowered a pass budget (default usize::MAX, which `passes_done` cannot reach); `Instant::checked_sub(11 s)` then fails only on a machine whose monotonic clock is younger than 11 s",guard_text="if exhausted(budget, passes_done) {",guard_in={"file":f,"text":"pub(super) static VALUE_PASSES: AtomicUsize = AtomicUsize::new(usize::MAX);"})
+    elif f.endswith("control_flow_graph/cfg.rs") and fn.endswith("merge_control"):
+        e=G("loop index of the only caller","added by the repair of D18 (/repo e096e8a). `Cfg::merge_control` is a private method (`fn`, not `pub`; the `merge_control()` called in expression_impl.rs is the getter of DegreeEnvironment, another type); its only call is inside `for index in 0..self.basic_blocks.len()` of propagate_degrees, so the index is in range (the loop body does not change the length of the block vector: Model.Propagate.pd_blocks / block_ctl go over the same list)",guard_in={"file":f,"text":"for index in 0..self.basic_blocks.len() { env.set_merge_control(self.merge_control(index));"})
+    elif f.endswith("control_flow_graph/cfg.rs") and fn.endswith("propagate_degrees") and k=="index":
+        e=G("loop index","changed by the repair of D18 (/repo e096e8a) from an iterator over the blocks to an index loop, so that merge_control can read the whole graph: the index ranges over 0..self.basic_blocks.len() and the body does not change the length of the block vector",guard_text="for index in 0..self.basic_blocks.len() {")
     elif f.endswith("control_flow_graph/cfg.rs"):
         KEEP=" The theorem is about the graph as lifted; into_ssa only prepends phi statements and renames (C14_phis_at_head), the block vector and the edge sets are untouched (observed by the C12 correspondence, which dumps the graph after into_ssa)"
         if fn.endswith("get_dominators"): e=D("C15_dominators_exact","members of a dominator set are nodes on a path of the graph, hence valid block indices")
